@@ -210,9 +210,9 @@ func validateTraces(ps *PropertySpec, results []*HarnessResult, outDir string) (
 		os.RemoveAll(tdir)
 		os.MkdirAll(tdir, 0o755)
 		n := 0
-		for _, hr := range hrs {
+		for hi, hr := range hrs {
 			for i, ts := range hr.TraceSamples {
-				writeJSON(filepath.Join(tdir, fmt.Sprintf("%s.%d.json", hr.Spec.Fn, i)), map[string]interface{}{"harness": hr.Spec.Fn, "nd": ts, "params": hr.Params})
+				writeJSON(filepath.Join(tdir, fmt.Sprintf("%s.h%d.%d.json", hr.Spec.Fn, hi, i)), map[string]interface{}{"harness": hr.Spec.Fn, "nd": ts, "params": hr.Params})
 				n++
 			}
 		}
